@@ -1,13 +1,112 @@
-(* P_C41: Concurrent socket connections are isolated (threaded Unix / TCP server, max_connections). *)
-From Coq Require Import List NArith ZArith Bool Arith.
-From VGI Require Import Corr M_Wire M_ConnIso L_ConnIso.
+(* P_C41: Concurrent socket connections are isolated (threaded Unix / TCP server, max_connections).
+
+   STATEMENT  With a threaded Unix or TCP server, any number of concurrent client connections each observe the same
+   results they would observe when served alone, with stream states never shared across connections, and with
+   max_connections set no more than that many connections are served at once.
+
+   System: M_ConnIso.crun -- any number of connections (list of scripts), each a list of calls (prog * script) on the
+   wire core, interleaved by an ARBITRARY schedule (list of connection ids, any length; a step of connection i is
+   whatever its phase allows: connect / acquire a slot / one client action incl. one next()/exchange() of an open
+   stream / disconnect).  A connection's stream state (cursor, queue, liveness) is part of its private state [st]. *)
+From Coq Require Import List NArith ZArith Bool Arith Lia.
+From VGI Require Import Corr M_Wire M_ConnIso L_ConnIso L_ConnIsoWire.
 Import ListNotations.
 Open Scope nat_scope.
 
+(* Every schedule, every max_connections (None = unlimited), every connection i:
+   - its private state -- the traces of its finished calls, the events of the call in progress, its open stream's
+     state -- is exactly the state of the SAME script run alone for some number k of steps (interleaving, other
+     connections' programs and waiting for a slot change nothing but how far it got);
+   - while it has not been served yet nothing of its script has happened;
+   - once it is Done its client has run its whole script and observed, call by call, exactly what the wire core
+     (run_pipe) yields for each call on its own: the complete solo observation. *)
+Theorem C41_isolated : forall (maxc : option nat) (scripts : list (list call)) (sched : list nat) (i : nat) (c : conn cstate),
+  nth_error (conns (crun sched (cinit_sys maxc scripts))) i = Some c ->
+  exists cs k, nth_error scripts i = Some cs
+               /\ st c = solo cfin cstep k (cinit cs)
+               /\ (ph c = Fresh \/ ph c = Queued -> st c = cinit cs)
+               /\ (ph c = Done -> cfin (st c) = true /\ ctrace (st c) = seq_calls cs).
+Proof.
+  intros maxc scripts sched i c H.
+  destruct (isolated cstate cfin clost cstep (map cinit scripts) maxc sched i c H) as (s0 & k & Hs & Hk & Hq & Hd).
+  rewrite nth_error_map in Hs. destruct (nth_error scripts i) as [cs|] eqn:E; simpl in Hs; [|discriminate].
+  inversion Hs; subst s0; clear Hs.
+  exists cs, k. split; [reflexivity|]. split; [exact Hk|]. split; [exact Hq|].
+  intro D. destruct (Hd D) as [F _]. split; [exact F|].
+  destruct (solo_is_seq_calls cs) as (k' & F' & T').
+  rewrite Hk in F |- *. rewrite (csolo_fin_unique (cinit cs) k k' F F'). exact T'.
+Qed.
+Print Assumptions C41_isolated.
+
+(* "served alone" is realised by the same server: with a single client connected (and max_connections <> 0),
+   the schedule that lets it take n steps brings it to exactly the k-step solo state, for every k *)
+Theorem C41_alone_is_solo : forall (maxc : option nat) (cs : list call) (k : nat),
+  maxc <> Some 0 ->
+  exists c, nth_error (conns (crun (repeat 0 (2 + k)) (cinit_sys maxc [cs]))) 0 = Some c
+            /\ st c = solo cfin cstep k (cinit cs).
+Proof.
+  intros maxc cs k Hm.
+  assert (Hp : has_permit maxc = true) by (destruct maxc as [[|n]|]; try reflexivity; congruence).
+  destruct (alone_run cstate cfin clost cstep maxc (cinit cs) Hp k) as (c & p & h & Hr & Hs & _).
+  exists c. unfold crun, cinit_sys. simpl map. rewrite Hr. split; [reflexivity|exact Hs].
+Qed.
+Print Assumptions C41_alone_is_solo.
+
 (* For EVERY schedule (any length, any number of connections): at most max_connections connections are inside
-   serve() at once -- now and at every earlier point of the run (hw = maximum over all prefixes). *)
+   serve() -- now and at every earlier point of the run (hw = maximum of [served] over all prefixes). *)
 Theorem C41_served_le_max_connections : forall (m : nat) (scripts : list (list call)) (sched : list nat),
   let g := crun sched (cinit_sys (Some m) scripts) in
-  served (conns g) <= m /\ hw g <= m.
-Proof. intros m scripts sched. apply (served_le_max cstate cfin clost cstep (map cinit scripts) m sched). Qed.
+  served (conns g) <= m /\ hw g <= m
+  /\ forall a b, sched = a ++ b -> served (conns (crun a (cinit_sys (Some m) scripts))) <= hw g.
+Proof.
+  intros m scripts sched. cbn zeta.
+  destruct (served_le_max cstate cfin clost cstep (map cinit scripts) m sched) as [H1 H2].
+  repeat split; auto.
+  intros a b ->. apply (hw_bounds_prefix cstate cfin clost cstep a b). simpl.
+  assert (Z : forall l : list cstate, served (map (fun x => {| ph := Fresh; st := x |}) l) = 0) by (induction l; simpl; auto).
+  rewrite Z. lia.
+Qed.
 Print Assumptions C41_served_le_max_connections.
+
+(* Others wait, none is dropped: in every reachable state every connection of the input is still there; one that
+   waits (Queued) has its script untouched, and it waits only while max_connections connections are being served --
+   with a free slot its very next step enters serve().  (And by C41_isolated a connection only ever becomes Done
+   after its own client finished its script.) *)
+Theorem C41_waiting_not_dropped : forall (m : nat) (scripts : list (list call)) (sched : list nat) (i : nat) (cs : list call),
+  nth_error scripts i = Some cs ->
+  let g := crun sched (cinit_sys (Some m) scripts) in
+  exists c, nth_error (conns g) i = Some c
+            /\ (ph c = Queued ->
+                st c = cinit cs
+                /\ ((has_permit (permits g) = false /\ served (conns g) = m)
+                    \/ exists c', nth_error (conns (crun [i] g)) i = Some c' /\ ph c' = Serving /\ st c' = st c)).
+Proof.
+  intros m scripts sched i cs H. cbn zeta.
+  destruct (run_conns_total cstate cfin clost cstep (map cinit scripts) (Some m) sched i (cinit cs)) as [c Hc].
+  { rewrite nth_error_map, H. reflexivity. }
+  exists c. split; [exact Hc|]. intro Q.
+  destruct (C41_isolated (Some m) scripts sched i c Hc) as (cs' & k & Hs & _ & Hq & _).
+  rewrite H in Hs. inversion Hs; subst cs'. split; [apply Hq; auto|].
+  destruct (has_permit (permits (crun sched (cinit_sys (Some m) scripts)))) eqn:P.
+  - right. apply (queued_enters_when_free cstate cfin clost cstep _ i c Hc Q P).
+  - left. split; [reflexivity|].
+    apply (sem_full_means_max_serving cstate m); [|exact P].
+    apply (sem_run cstate cfin clost cstep m sched), sem_init.
+Qed.
+Print Assumptions C41_waiting_not_dropped.
+
+(* ------------------------------------------------------------------ non-vacuity *)
+Definition ex_ok : step := {| slogs := []; emit := Some {| rows := 1; tag := 0; meta := [] |}; fin := false; sraise := None |}.
+Definition ex_stream : prog := PStream {| ilogs := []; ires := InitOk; hdr := Some 5%Z; steps := [ex_ok; ex_ok] |}.
+Definition ex_unary : prog := PUnary {| ulogs := []; ures_of := UOk 7 |}.
+Definition ex_scripts : list (list call) :=
+  [[(ex_stream, SIter false 0 AStop CbRecord)]; [(ex_stream, SExch true 2 AClose CbRecord); (ex_unary, SUnary CbRecord)]; [(ex_unary, SUnary CbRecord)]].
+(* max_connections = 1, three connections, stream steps of 0 and 1 interleaved as far as the semaphore allows;
+   connection 1 and 2 wait; everybody completes; never more than one served *)
+Definition ex_sched : list nat := [0;1;2;0;1;0;2;0;1;0;0;0;1;2;1;1;1;1;1;1;2;1;2;2;2].
+
+Example C41_example_all_done :
+  let g := crun ex_sched (cinit_sys (Some 1) ex_scripts) in
+  all_done g = true /\ hw g = 1 /\ map (fun c => ctrace (st c)) (conns g) = map seq_calls ex_scripts
+  /\ existsb (fun t => negb (Nat.eqb (length t) 0)) (map (fun c => ctrace (st c)) (conns g)) = true.
+Proof. vm_compute. repeat split; reflexivity. Qed.
